@@ -11,6 +11,9 @@ from .core import Facts
 VERIF = X.VERIF
 
 
+VIEW_READY = {"C01", "C02", "C03", "C04", "C05", "C06", "C07", "C08", "C09", "C10", "C11", "C12", "C13", "C14", "C15", "C16", "C17", "C18", "C20"}
+
+
 class Ctx:
     def __init__(self, prop, tier="quick", seed=0, repo=None, cache=None, only_key=None, quiet=False):
         self.prop = prop
@@ -45,6 +48,8 @@ class Ctx:
             self.configs[config] = info
             want = crates if crates is not None else X.CONFIGS[config]["crates"]
             self._facts[k] = Facts(d, crates=want)
+            # normalised views (sa/inline.py) for the properties whose rules were converted to them; the others still read raw MIR
+            self._facts[k].auto_view = (self.prop in VIEW_READY or os.environ.get("VERIF_VIEWS", "") == "1") and os.environ.get("VERIF_RAW_BODIES", "") != "1"
         return self._facts[k]
 
     # ---- recording ----
